@@ -177,7 +177,7 @@ PROPS = {
     "C14": {
         "rules": [prog.rule_progress, sib.rule_removed_pairing, sib.rule_obs_partition, mpt.rule_mpt_c14, tab.rule_rm_points, tab.rule_cluster_casts,
                   lazy.rule_lazy_cascade, sib.rule_revision_lookup_siblings, step_rule, scratch_rule],
-        "explanation": "R-PAIR P1: every set_unused_xy/z in LocalNetwork is post-dominated by removed(id, code) with a reason code of the "
+        "explanation": "R-PROGRESS: in every propagation loop (repeat while the last pass made progress) each point-setter call is followed on every path by raising the progress flag, so the outcome does not depend on the order of the records. R-PAIR P1: every set_unused_xy/z in LocalNetwork is post-dominated by removed(id, code) with a reason code of the "
                        "same axis class; partition: revision_observations puts every observation on exactly one of the used / removed "
                        "lists, cleared first, and counts the used list; R-MPT: remove_huge_abs_terms re-triggers the revision after "
                        "deactivating observations; removed(id, code) restarts the whole pipeline (update cascade); reason tables and cluster casts agree (R-TAB/R-VIS); every point an observation refers to is looked up, checked for existence before use and put through the same set of status tests as the other points of that observation in LocalRevision (R-SIB). "
@@ -185,7 +185,7 @@ PROPS = {
     },
     "C16": {
         "rules": [repl.rule_replica, idx.rule_idx_c16, mpt.rule_mpt_c16, step_rule, scratch_rule, idx2.rule_idx2_sparse],
-        "explanation": "R-IDX over SparseMatrixOrdering/ReverseCuthillMcKee/Envelope::set (perm: P->U, invp: U->P, graph nodes U, "
+        "explanation": "R-REPL: every hand-written copy constructor / assignment / replica factory carries every state field of its class over to the target (literal resets and default initialisers do not count). R-IDX over SparseMatrixOrdering/ReverseCuthillMcKee/Envelope::set (perm: P->U, invp: U->P, graph nodes U, "
                        "envelope rows P); R-MPT: inverse_permutaion() follows algorithm() on every path of SparseMatrixOrdering::reset, "
                        "the ordering precedes Envelope::set, cholDec precedes solve. Numerical equality with dense LDL' is not decided.",
     },
@@ -233,7 +233,7 @@ PROPS = {
     },
     "C15": {
         "rules": [repl.rule_replica, guard.rule_guard, dim.rule_dim, pair.rule_memrep, step_rule, scratch_rule, lazy.rule_lazy_conditional_fields],
-        "explanation": "R-DIM: in every lib/matvec function touching elements of two or more operands a dimension comparison whose failing "
+        "explanation": "R-REPL: every hand-written copy constructor / assignment / replica factory carries every state field of its class over to the target (literal resets and default initialisers do not count). R-GUARD: an update-if-different guard of reset(r,c) compares every field the guarded block sets from a parameter. R-DIM: in every lib/matvec function touching elements of two or more operands a dimension comparison whose failing "
                        "branch throws Exception::BadRank (or a resize / a checking callee) dominates the first element access; R-PAIR P3: "
                        "MemRep's owning pointer comes only from new[], null or a moved-from rvalue, copies allocate and copy exactly the "
                        "source size and never alias. Algebraic identities are not decided.",
@@ -251,7 +251,7 @@ PROPS = {
     "C19": {
         "rules": [prog.rule_progress, repl.rule_replica, tab.rule_g3_visitors, lazy.rule_lazy_chain, lazy.rule_lazy_adj, tab.rule_algorithms, fsm2.rule_dataparser,
                   esc.rule_esc_g3, pair.rule_newdelete, dead.rule_dead_g3, step_rule, scratch_rule, tab.rule_who_depends, fin.rule_fin_c19, pair.rule_ownership_handover, pair.rule_no_use_after_handover, rec.rule_stream_validators, sib.rule_g3_scale_siblings],
-        "explanation": "R-VIS V2 every g3 visitor covers all concrete g3 observation classes; R-LAZY stage chain of g3::Model and "
+        "explanation": "R-PROGRESS: in every propagation loop (repeat while the last pass made progress) each point-setter call is followed on every path by raising the progress flag, so the outcome does not depend on the order of the records. R-REPL: every hand-written copy constructor / assignment / replica factory carries every state field of its class over to the target (literal resets and default initialisers do not count). R-VIS V2 every g3 visitor covers all concrete g3 observation classes; R-LAZY stage chain of g3::Model and "
                        "typestate of Adj; R-TAB T1 algorithm names; R-FSM DataParser automaton (no silent error, absorbing error state, "
                        "depth discipline, init() role table verified against its body); R-ESC g3 writers; R-PAIR P2. R-DEAD for the parameter-status chains of g3. Adjusted "
                        "coordinates are not decided.",
